@@ -39,7 +39,9 @@ def required(tier):
         'classes': ['refused:differing-field-sets', 'refused:mixed-identification',
                     'naming:pattern', 'naming:list', 'assoc:yes', 'assoc:no', 'ids:yes',
                     'assoc-fields:vx_species:species-differ-per-part',
-                    'ids:no', 'inputs:1', 'inputs:6', 'layout:inputs-in-separate-directories'],
+                    'ids:no', 'inputs:1', 'inputs:6', 'layout:inputs-in-separate-directories',
+                    'metadata:non-ascii-text', 'naming:pattern:index-in-directory',
+                    'naming:pattern:zero-padded'],
         'counters': {'seam_reads': 50, 'beyond_end_reads': 10, 'id_lookups': 50},
         'evaluations': 300,
     }
@@ -65,9 +67,12 @@ def one_merge(rng, workdir: Path, rec, k):
     tag = f'{rng.getrandbits(36):x}'
     d = workdir / f'case{tag}'
     d.mkdir()
+    dir_pattern = pattern and rng.random() < 0.35      # {index} also in a directory component
+    padded = pattern and rng.random() < 0.4            # {index:03d}
+    fmt = '{index:03d}' if padded else '{index}'
     if pattern:
         start = rng.randint(0, 12)
-        names = [f'part_{start + j}' for j in range(nin)]
+        names = ['part_' + fmt.format(index=start + j) for j in range(nin)]
     else:
         pool = ['zeta', 'alpha', 'mid', 'beta', 'omega', 'b10', 'b9', 'a_2', 'A']
         names = rng.sample(pool, nin)      # deliberately not in alphabetical order
@@ -78,6 +83,8 @@ def one_merge(rng, workdir: Path, rec, k):
     spread = (not pattern) and rng.random() < 0.4     # every input in a directory of its own
     for j_, name in enumerate(names):
         dd = d / f'dir{j_}' if spread else d
+        if dir_pattern:
+            dd = d / ('slice_' + fmt.format(index=start + j_))
         dd.mkdir(exist_ok=True)
         base = dd / f'{name}.nc'
         assoc = dd / f'x_{name}.nc'
@@ -110,17 +117,29 @@ def one_merge(rng, workdir: Path, rec, k):
             'inputs_in_separate_directories': spread}
     if spread:
         rec.cls('layout:inputs-in-separate-directories')
+    # free-text metadata of the merged store (any Unicode text is legal)
+    meta_kw = {}
+    if rng.random() < 0.5:
+        meta_kw = {rng.choice(['title', 'comment', 'history', 'source']):
+                   rng.choice(['Überflüge 2019 – Zürich → 東京', 'vols d\'été ✈', 'naïve café'])}
+        rec.cls('metadata:non-ascii-text')
+    pdir = (d / ('slice_' + fmt)) if dir_pattern else d
+    if dir_pattern:
+        rec.cls('naming:pattern:index-in-directory')
+    if padded:
+        rec.cls('naming:pattern:zero-padded')
     try:
         if pattern:
-            TrajectoryStore.merge(out, input_stores_pattern=str(d / 'part_{index}.nc'),
-                                  input_stores_index_range=(start, start + nin - 1))
+            TrajectoryStore.merge(out, input_stores_pattern=str(pdir / ('part_' + fmt + '.nc')),
+                                  input_stores_index_range=(start, start + nin - 1), **meta_kw)
         else:
-            TrajectoryStore.merge(out, input_stores=list(bases))
+            TrajectoryStore.merge(out, input_stores=list(bases), **meta_kw)
         kw = {}
         if with_assoc:
             aout = d / 'merged_x.aeic-store'
             if pattern:
-                TrajectoryStore.merge(aout, input_stores_pattern=str(d / 'x_part_{index}.nc'),
+                TrajectoryStore.merge(aout,
+                                      input_stores_pattern=str(pdir / ('x_part_' + fmt + '.nc')),
                                       input_stores_index_range=(start, start + nin - 1))
             else:
                 TrajectoryStore.merge(aout, input_stores=list(assocs))
